@@ -17,6 +17,7 @@ SampleOK(e) ==
     /\ e.deleted = 0
     /\ e.refsum = 0
     /\ e.inflight = 0
+    /\ e.stale = 0          \* no node outside the live entries still references a removed value
 
 Init == l = 1
 Next == l <= Len(Trace) /\ SampleOK(Ev) /\ l' = l + 1
